@@ -946,9 +946,17 @@ def _object_facts(cls: ast.ClassDef, fns: dict[str, ast.FunctionDef], attr_slots
         return {k for n in ast.walk(node) if isinstance(n, ast.Attribute) and isinstance(n.ctx, (ast.Store, ast.Del))
                 for k in [_key(n)] if k}
 
+    # a `return` inside the entry prologue of make_tempfile does not end the scan: that the prologue falls through (or
+    # raises) in EVERY attribute state is what the obligations entry_inert (no handle) and reentry_ok (a handle is
+    # held) say about the generated prologue program; a prologue that returns early flips those, by name
+    try:
+        pro_ids = {id(st) for st in _entry_prologue(mk)}
+    except TranslateError:
+        pro_ids = set()
+
     def scan(body: list[ast.stmt], in_enter: bool) -> None:
         for st in body:
-            if st is not body[-1] and any(isinstance(x, ast.Return) for x in ast.walk(st)):
+            if st is not body[-1] and id(st) not in pro_ids and any(isinstance(x, ast.Return) for x in ast.walk(st)):
                 break      # an early return: what follows is not executed on every entry
             if in_enter and isinstance(st, ast.Expr) and isinstance(st.value, ast.Call) \
                     and _key(st.value.func) == 'self.make_tempfile' and not st.value.args and not st.value.keywords:
